@@ -20,11 +20,64 @@ ALGS = {
 }
 
 META = {
-    "bounds": "",
-    "outside": "",
-    "assumptions": [],
-    "harness_functions": ["harness", "run_split", "check_common", "v_abs_load", "v_abs_step", "v_pad_tail", "v_check_seg",
-                          "v_check_log", "v_serialise", "v_alloc", "v_buf"],
+    "bounds": "PORTABLE build (SIMD macros undefined exactly as tests/hash/main.c does). "
+              "(a) block transforms, one block (thorough: also two consecutive blocks), chaining state + block bytes + every "
+              "other context field symbolic, block pointer aligned and unaligned: md5_transform, sha1_transform(_generic), "
+              "sha2_transform -> block64_generic / block128_generic (state of SHA-224/256/384/512) == straight-line references "
+              "generated from RFC 1321 (T[i] from sin, shifts, word order), RFC 3174, FIPS 180-4 (K/IV from cube/square roots "
+              "of primes); equality decided by z3 + cvc5 on bit-vector terms, built-in memory-safety/UB checks and the frame "
+              "condition by SAT. Streebog: gost3411_2012_transform_n_generic / _1_generic with the LPS kernel abstracted == g_N, "
+              "E, key schedule with C1..C12, N += bits, Sigma += m of RFC 6986 for all h, N, Sigma, m, bits; the table kernel "
+              "gost3411_2012_SLP against pi/tau/A of RFC 6986 in byte-difference form, quick: byte position 9 of 64, thorough: "
+              "all 64 positions (+ small-table builds at positions 0, 9, 63). "
+              "(b) streaming with the transform abstracted (arbitrary result per call): init/update/final, one-shot and hex-string "
+              "entry points from *_init: quick message lengths {0, B-L-1, B-L, B+1} (B block bytes, L length-field bytes) for "
+              "MD5/SHA-1/SHA-256/SHA-512, {B-L} for SHA-224/384, Streebog-512 {0,63,64,70}, Streebog-256 {64,70}; partitions into "
+              "<= 3 updates with split points from {0,1,B-1,B,B+1,2B-1,2B,2B+1,n-1,n} (empty updates included); thorough: every "
+              "length 0..2B+L+1 (Streebog 0..130) with boundary lengths under all those split pairs. Inductive step (MD-style "
+              "hashes): update(L bytes)+final from an ARBITRARY mid-stream context with byte count n = 64q+R resp. 128q+R, q "
+              "symbolic over the whole domain of the standard (carry into count_hi included), quick 4 (R,L) shapes per main "
+              "variant, thorough ~60 (R,L) shapes and all R at once for L = B+1. Asserted everywhere: blocks given to the "
+              "transform == pad(msg) of the standard, chaining from the standard IV, digest/hex bytes, reported sizes, every "
+              "context byte zero after *_final.",
+    "outside": "SSE / SHA-NI / AVX / AVX2 transforms and the CPUID dispatch flags (vendor intrinsics are not modelled by goto-cc); "
+               "compiler and optimisation-level matrix (CBMC decides C semantics; what is decided instead: no UB/bounds "
+               "violation inside the bounds); real alignment faults (alignment-dependent BRANCHES are covered through the "
+               "block offset shapes); Streebog LPS kernel in the quick tier at 63 of the 64 byte positions (thorough covers all; "
+               "measured HOLD at positions 0, 7, 9, 56, 63, 100-360 s each); the direct one-block equivalence of Streebog "
+               "without the LPS abstraction (no verdict in 280 s, replaced by kernel + structure as planned in DESIGN 5.4); "
+               "Streebog inductive step harness (only bounded lengths 0..130 from init); end-to-end lengths above 2B+L+1 "
+               "except through the inductive step; more than 3 updates per message except through the inductive step.",
+    "assumptions": [
+        "portable build: __SSE2__, __SSE3__, __SSSE3__, __SSE4_1__, __SSE4_2__, __AVX__, __AVX2__, __SHA__ undefined before the includes",
+        "layer (b) abstraction: md5_transform / sha1_transform_generic / sha2_transform_block64_generic / "
+        "sha2_transform_block128_generic / gost3411_2012_transform_n_generic / gost3411_2012_transform_1_generic are replaced "
+        "by logging stubs through a function-like macro that pastes onto the first token of the first argument "
+        "(common/hash/v_abs.h; compile error if liblcb spells a call differently); stub result = arbitrary value per call "
+        "(weaker than an uninterpreted function: no functional consistency assumed) + arbitrary contents in the transform's "
+        "scratch area (W[], md5/gost buffer copy, kbuf/tbuf/sbuf); layer (a) decides the frame condition that nothing else changes",
+        "Streebog stub for transform_n performs N += bits and Sigma += block with a byte-wise reference adder; the real "
+        "adders are decided against the same adder in gost-xform-gN",
+        "Streebog kernel: byte-separability of L(P(S(.))) of RFC 6986 (L and P are GF(2)-linear, S acts on bytes) is used as a "
+        "mathematical fact to go from the byte-difference form to SLP == LPS",
+        "SHA-2 references in the -eq jobs use the OR-forms of Ch/Maj; lemma-ch-maj decides OR-form == XOR-form of FIPS 180-4 for all inputs",
+        "reference code generated by common/hash/hashgen.py / hashgen_streebog.py from the standards only; generator self-checks "
+        "against Python hashlib (MD5/SHA) and RFC 6986 examples + libgcrypt (Streebog; also nettle at development time)",
+        "Streebog digest byte order: byte 0 = least significant byte of the 512-bit value (libgcrypt/nettle/RFC 7836 convention; "
+        "RFC 6986 section 10 prints the same bytes reversed)",
+        "malloc never fails in harness allocations (v_alloc assumes non-NULL; --no-malloc-may-fail because liblcb's hash code never allocates)",
+        "step.c pre-state: any context satisfying the stated invariant; domain of n limited to the standard's (SHA-1/224/256: "
+        "< 2^61 bytes, SHA-384/512: < 2^125 bytes, MD5: < 2^64 bytes without wrap of the byte counter)",
+        "-eq jobs: built-in checks off (sibling -safe job runs the same code and shape with all built-in checks on)",
+    ],
+    "harness_functions": ["harness", "run_split", "check_common", "check_run", "oracle_prepare", "frame", "v_abs_load", "v_abs_step",
+                          "v_pad_tail", "v_check_seg", "v_check_log", "v_serialise", "v_alloc", "v_buf", "a_real_transform",
+                          "v_md5_transform_stub", "v_sha1_transform_stub", "v_sha2_transform_stub", "v_sha2_transform_wrong",
+                          "v_gost_tn_stub", "v_gost_t1_stub", "v_gost_slp_stub", "v_gost_havoc", "v_gost_X", "v_gost_S", "v_gost_P",
+                          "v_gost_L", "v_gost_LPS", "v_gost_LPS_tab", "v_gost_add512", "v_gost_g", "v_ref_md5_compress",
+                          "v_ref_md5_compress_w", "v_ref_md5_decode", "v_ref_sha1_compress", "v_ref_sha1_compress_w",
+                          "v_ref_sha1_decode", "v_ref_sha256_compress", "v_ref_sha256_compress_w", "v_ref_sha256_decode",
+                          "v_ref_sha512_compress", "v_ref_sha512_compress_w", "v_ref_sha512_decode"],
 }
 
 
@@ -55,7 +108,7 @@ def xform_jobs(tier):
                             "solver": "minisat", "flags": SMT_FLAGS, "prop_include": "standard compression|EXTRA",
                             "shape": shape, "desc": "portable transform == compression function of the standard "
                             "(generated straight-line reference); decided by cvc5 on bit-vector terms",
-                            "timeout": 300 if tier == "quick" else 1500, "cost": 5})
+                            "timeout": 900 if tier == "quick" else 1500, "cost": 50})
                 out.append({"name": "xform-%s-n%d-o%d-safe" % (a, nblk, off), "src": "xform.c", "defs": dict(defs, NO_REF=None),
                             "unwind": uw, "solver": "cadical", "mem_gb": 12,
                             "shape": shape, "desc": "built-in memory-safety / UB checks of the transform; frame condition "
@@ -90,10 +143,15 @@ def stream_jobs(tier):
         B, LB = A["blk"], A["lenb"]
         edge = [0, 1, B - LB - 1, B - LB, B - 1, B, B + 1, 2 * B - LB - 1, 2 * B - LB, 2 * B, 2 * B + LB + 1]
         if tier == "quick":
-            lens = [0, B - LB - 1, B - LB, B + 1, 2 * B] if a in FULL else [B - LB, B + 1]
+            lens = [0, B - LB - 1, B - LB, B + 1] if a in FULL else [B - LB]
             few = True
         else:
-            lens = list(range(0, 2 * B + LB + 2)) if a in FULL else edge
+            if a in ("md5", "sha256"):
+                lens = list(range(0, 2 * B + LB + 2))
+            elif a in FULL:
+                lens = sorted(set(edge) | set(range(0, 2 * B + LB + 2, 5)))
+            else:
+                lens = edge
             few = False
         for n in lens:
             if tier == "thorough" and n not in edge:
@@ -123,9 +181,9 @@ def step_shapes(a, tier):
     B, LB = ALGS[a]["blk"], ALGS[a]["lenb"]
     if tier == "quick":
         if a not in FULL:
-            return [(B - LB, 1), (1, 2 * B)]
-        return [(0, 0), (0, B), (1, B - 2), (1, B - 1), (B - LB - 1, 0), (B - LB, 0), (B - 1, 1), (B - 1, B + 2)]
-    rs = [0, 1, 2, B - LB - 2, B - LB - 1, B - LB, B - LB + 1, B // 2, B - 2, B - 1] if a in FULL else [0, B - LB, B - 1]
+            return [(B - LB, 1)]
+        return [(0, 0), (B - 1, 1), (B - LB, 0), (B - 1, 2)]
+    rs = [0, 1, B - LB - 1, B - LB, B // 2, B - 1] if a in FULL else [0, B - LB]
     out = set()
     for r in rs:
         for l in (0, 1, B - r - 1, B - r, B - r + 1, 2 * B - r, 2 * B + 1, 3 * B - r + 1):
@@ -146,7 +204,7 @@ def step_jobs(tier):
                                  "value/tail/other context bytes; update(%d bytes) then final" % (a, B, r, l),
                         "desc": "inductive step: blocks given to the transform, chaining, count(+carry), buffer tail after "
                                 "update; padding with the bit length of n+L, digest, zeroisation after final",
-                        "cost": 10, "timeout": 200 if tier == "quick" else 1500})
+                        "cost": 10, "timeout": 600 if tier == "quick" else 1500})
         if tier == "thorough" and a in FULL:
             l = B + 1
             us = (["%s:%d" % (A["upd"], l // B + 3)] if A.get("upd") else []) + A.get("step_us", [])
@@ -158,6 +216,70 @@ def step_jobs(tier):
     return out
 
 
+def gost_jobs(tier):
+    out = []
+    variants = [("big", {})]
+    if tier == "thorough":
+        variants += [("small", {"GOST3411_2012_USE_SMALL_TABLES": None}),
+                     ("smalltau", {"GOST3411_2012_USE_SMALL_TABLES": None, "GOST3411_2012_USE_SMALL_TABLES_TABLE_TAU": None})]
+    for off in ([0, 1] if tier == "quick" else [0, 1, 4]):
+        for g0 in (0, 1):
+            if g0 and off:
+                continue
+            defs = {"BITS": 512, "MODE_ABS": None, "OFF": off}
+            if g0:
+                defs["G0"] = None
+            out.append({"name": "gost-xform-%s-o%d" % ("g0" if g0 else "gN", off), "src": "gxform.c", "defs": defs, "unwind": 70,
+                        "solver": "cadical", "shape": "Streebog %s, one block at offset %d, h/N/Sigma/m/bits/context symbolic, "
+                        "LPS kernel abstracted (arbitrary result per application)" % ("transform_1 (g_0)" if g0 else "transform_n (g_N)", off),
+                        "desc": "arguments of all 25 LPS applications == RFC 6986 (g_N, E, key schedule with C1..C12), "
+                                "h' = E(K,m)^h^m, N += bits, Sigma += m mod 2^512, frame", "cost": 60, "timeout": 900 if tier == "quick" else 1500})
+    pos = [9] if tier == "quick" else list(range(64))
+    for vn, vd in variants:
+        for p in pos:
+            if vn != "big" and p not in (0, 9, 63):
+                continue
+            out.append({"name": "gost-kernel-%s-p%d" % (vn, p), "src": "gxform.c",
+                        "defs": dict({"BITS": 512, "MODE_SLPD": None, "PLO": p, "PHI": p + 1}, **vd), "unwind": 70, "solver": "kissat",
+                        "shape": "Streebog SLP kernel (%s tables), byte position %d: all 512-bit x, all replacement bytes b" % (vn, p),
+                        "desc": "SLP(x) ^ SLP(x[p:=b]) == LPS(e_p(x_p)) ^ LPS(e_p(b)) and SLP(0) == LPS(0) against pi, tau, A of RFC 6986",
+                        "cost": 200, "timeout": 900 if tier == "quick" else 1500})
+    return out
+
+
+def gost_stream_jobs(tier):
+    out = []
+    for bits in (256, 512):
+        if tier == "quick":
+            shapes = [(0, [(0, 0)]), (63, [(0, 63), (1, 62)]), (64, [(0, 64), (1, 63), (64, 64)]), (70, [(1, 65), (63, 64)])]
+            if bits == 256:
+                shapes = shapes[2:]
+        else:
+            shapes = []
+            for n in sorted({0, 1, 62, 63, 64, 65, 127, 128, 129, 130} | set(range(0, 131, 8))):
+                pts = sorted({0, 1, 63, 64, 65, 127, 128, n - 1, n} & set(range(0, n + 1)))
+                sp = [(a, b) for a in pts for b in pts if a <= b]
+                if n not in (0, 1, 62, 63, 64, 65, 127, 128, 129, 130):
+                    sp = sorted({(0, 0), (n, n), (1, n - 1), (n // 2, n // 2)})
+                for ci in range(0, len(sp), 4):
+                    shapes.append((n, sp[ci:ci + 4]))
+        seen = {}
+        for n, sp in shapes:
+            ci = seen.get(n, 0)
+            seen[n] = ci + 1
+            defs = {"BITS": bits, "LEN": n, "SPLITS": " ".join("X(%d,%d)" % x for x in sp)}
+            if ci == 0:
+                defs["ENTRY_POINTS"] = None
+            out.append({"name": "stream-gost%d-L%d-p%d" % (bits, n, ci), "src": "gstream.c", "defs": defs, "unwind": 600,
+                        "solver": "cadical",
+                        "shape": "Streebog-%d message length %d, update partitions %s%s; message bytes and all compression "
+                                 "results symbolic" % (bits, n, ",".join("(%d,%d)" % x for x in sp),
+                                                       " + one-shot + hex-string" if ci == 0 else ""),
+                        "desc": "compression log == RFC 6986 stages 1-3 (blocks, 0x01 padding, bit counts, N, Sigma, g_0(N), "
+                                "g_0(Sigma)), IV, digest/hex, context zero after final", "cost": 10 * len(sp)})
+    return out
+
+
 def lemma_jobs(tier):
     return [{"name": "lemma-ch-maj", "src": "lemma.c", "defs": {}, "unwind": 2, "solver": "cadical",
              "shape": "all 32-bit and 64-bit x, y, z",
@@ -165,7 +287,7 @@ def lemma_jobs(tier):
 
 
 def jobs(tier):
-    out = lemma_jobs(tier) + xform_jobs(tier) + stream_jobs(tier) + step_jobs(tier)
+    out = lemma_jobs(tier) + xform_jobs(tier) + gost_jobs(tier) + gost_stream_jobs(tier) + stream_jobs(tier) + step_jobs(tier)
     for j in out:
         # The harness' own allocations are `p = malloc(n); assume(p != 0)` (verif.h); liblcb's hash code never allocates.
         # With CBMC's default --malloc-may-fail every later access through p is executed for the NULL case as well and
